@@ -47,6 +47,8 @@ pub fn e2_workload(r: &mut Rng, cfg: &Cfg, txns: usize, committers: usize) -> Wo
         first_txn: 1,
         big_batch_pct: *r.pick(&[0, 5, 15]),
         manual_flush_every: 0,
+        hook_rotate_pct: 0,
+        hook_flush_pct: 0,
     }
 }
 
@@ -130,6 +132,8 @@ fn base_w() -> Workload {
         first_txn: 1,
         big_batch_pct: 0,
         manual_flush_every: 6,
+        hook_rotate_pct: 0,
+        hook_flush_pct: 0,
     }
 }
 
@@ -261,7 +265,17 @@ pub fn run_part_with(run: &mut Run, a: &Args, prop: &str, vlog: VlogMode) -> (u6
         let mut tr = r.fork(ti as u64);
         let cfg = e2_cfg(&mut tr, vlog);
         let committers = if ti % 3 == 2 { tr.range(2, 6) as usize } else { 1 };
-        let w = e2_workload(&mut tr, &cfg, a.tier.pick(70, 160), committers);
+        let mut w = e2_workload(&mut tr, &cfg, a.tier.pick(70, 160), committers);
+        // every 4th trace: rotations injected between a commit's WAL write and its apply;
+        // half of those in deterministic mode with flushes of the oldest immutable memtable
+        // injected after publishes (so the older memtable is flushed while the newer is not)
+        if ti % 4 == 1 {
+            w.hook_rotate_pct = *tr.pick(&[10, 25, 50]);
+        } else if ti % 4 == 3 {
+            w.manual_flush_every = *tr.pick(&[7, 13]);
+            w.hook_rotate_pct = *tr.pick(&[15, 35]);
+            w.hook_flush_pct = *tr.pick(&[20, 50]);
+        }
         let name = format!("t{}", ti);
         let dense = a.tier == Tier::Thorough;
         let out = match trace_and_verify(&scratch, &name, &cfg, &w, a.seed.wrapping_add(ti as u64), dense, &|_| true, a.tier.pick(7, 3), None) {
